@@ -25,6 +25,10 @@ def sampler_config(draw, kinds=ALL_KINDS, bounds="maybe", max_d=4, temps=(1.0, 1
                    extreme=False, gibbs_limits=True):
     kind = draw(st.sampled_from(kinds))
     d = draw(st.integers(1, max_d))
+    big = max_d >= 3 and draw(st.integers(0, 11)) == 0
+    if big:
+        # beyond the sizes small examples reach: more parameters (and, below, more walkers)
+        d = draw(st.integers(5, 9))
     T = 1.0 if kind == "ensemble" else draw(st.sampled_from(temps))
     can_bound = kind in ("pca", "hmc", "ensemble")
     bounded = can_bound and (bounds == "always" or (bounds == "maybe" and draw(st.integers(0, 2)) == 0))
@@ -84,7 +88,7 @@ def sampler_config(draw, kinds=ALL_KINDS, bounds="maybe", max_d=4, temps=(1.0, 1
             knobs["inverse_mass"] = M.tolist()
         knobs["finite_diff"] = draw(st.integers(0, 4)) == 0
     if kind == "ensemble":
-        cfg["n_walkers"] = d + 1 + draw(st.integers(0, 4))
+        cfg["n_walkers"] = d + 1 + draw(st.integers(0, 4)) + (draw(st.sampled_from([0, 8, 20])) if big else 0)
         knobs["max_attempts"] = draw(st.sampled_from([1, 2, 100]))
     cfg["knobs"] = knobs
     if not bounded:
@@ -109,6 +113,26 @@ def sampler_config(draw, kinds=ALL_KINDS, bounds="maybe", max_d=4, temps=(1.0, 1
                 lim.append([w, i, draw(st.sampled_from([0.5, 2.0, 10.0])), draw(st.sampled_from([0.3, 0.5, 0.9]))])
         cfg["limits"] = lim
     return cfg
+
+
+LONG_RUNS = [300, 500, 1000, 1024, 1500, 2500, 4200, 5000]
+
+
+def maybe_long(draw, size, cfg, one_in=16):
+    """Now and then a run far longer than the small sizes: internal buffers, growing check intervals, update
+    schedules and histories pass points that short runs never reach (thousands of stored rows).  Sized by
+    what a step of that sampler costs."""
+    if draw(st.integers(0, one_in - 1)) != 0:
+        return size
+    m = draw(st.sampled_from(LONG_RUNS))
+    kind = cfg["kind"]
+    if kind == "hmc":
+        m = min(m, 300 if cfg["knobs"].get("finite_diff") else 6600 // max(1, int(cfg["knobs"].get("steps", 6))))
+    elif kind == "ensemble":
+        m = max(40, -(-m // cfg.get("n_walkers", 4)))  # iterations: walkers x iterations rows
+    elif kind in ("gibbs", "pca"):
+        m = min(m, 15000 // cfg["d"])
+    return m
 
 
 def advance_sizes():
@@ -273,11 +297,13 @@ def _guard_hmc(fn, *a, **k):
 
 
 def _budgeted(h, n_steps, fn):
-    """Run a stepping operation under an evaluation budget (50k + 5k per requested
-    step); exceeding it raises ctx.Runaway instead of hanging the harness.  The budget
-    belongs to the sampler's own target (samplers may run interleaved in kernel tasks)."""
+    """Run a stepping operation under an evaluation budget (50k + 5k per requested step for
+    the first 100 steps, 500 per step beyond); exceeding it raises ctx.Runaway instead of hanging
+    the harness.  The budget belongs to the sampler's own target (samplers may run interleaved
+    in kernel tasks)."""
     c = rctx.get()
-    c.eval_budgets[h.target.tag] = 50_000 + 5_000 * int(n_steps)
+    n_steps = int(n_steps)
+    c.eval_budgets[h.target.tag] = 50_000 + 5_000 * min(n_steps, 100) + 500 * max(0, n_steps - 100)
     try:
         return fn()
     finally:
